@@ -543,11 +543,13 @@ def inject_shape(M, r):
 
 
 def special_names(M, r):
-    """labels with XML-special text: comparisons with < > and &&, trivially true guards"""
+    """labels with XML-special text: comparisons with < > and &&, trivially true guards, literal guards other than 1"""
     for t in M["templates"]:
         for e in t["edges"]:
             if r.random() < 0.15 and not any(k == "guard" for k, _ in e["labels"]):
                 e["labels"].append(["guard", ["int", 1]])           # trivially true guard: nothing to write
+            if r.random() < 0.12 and not any(k == "guard" for k, _ in e["labels"]):
+                e["labels"].append(["guard", ["int", r.choice([0, 2, 7])]])   # a literal other than 1: must be written (seed C20-13)
             if r.random() < 0.1 and not any(k == "guard" for k, _ in e["labels"]):
                 e["labels"].append(["guard", ["AND", ["LT", ["id", "m"], ["int", 7]], ["GT", ["id", "m"], ["int", -3]]]])
 
